@@ -11,7 +11,7 @@
       3 inconsistent AI-client configuration, 2 report not writable, 0 otherwise —
     and a report file exists exactly when a run with --output completed (so a non-zero status never comes with a report).
 
-    What is proved.  The space of worlds is finite (12288) and enumerated completely ([all_worlds_complete]); for ANY value
+    What is proved.  The space of worlds is finite (24576) and enumerated completely ([all_worlds_complete]); for ANY value
     of the generated tables each statement below is either the universal law or a concrete counterexample world
     (the first one of a complete sweep) — the kernel accepts the instance at the current table values.
     [C20_exit_table] is restricted to [in_scope]: outside are the two input classes left as known findings
